@@ -42,13 +42,16 @@ var guardedBy = []guardSpec{
 
 func runC15(c *core.Ctx) {
 	runFixtures(c, "locks")
-	c.Explain("Linearizability, race freedom in general and deadlock freedom over interleavings are NOT decidable by a sound static argument available here (no pointer analysis, no scheduler model); the race detector and systematic schedule enumeration are other technique families. Two necessary conditions are decided: (R15.1) a guarded-by table (14 lines, each confirmed by reading): the blob's byte slice is touched through a receiver only with the blob mutex held; mirrored/handed-out counters and published flags only through sync/atomic; the serial transaction's result map only under its mutex; the lazily loaded record fields are written only inside the matching sync.Once.Do closure and read only after that Do has returned in the same function (or after the atomic published flag was seen). A shared blob touched without its guard IS a data race. (R15.2) check-then-act in one transaction: each mutating operation of the key-value FS issues the look-ups its decision depends on and the resulting Set on the same Transaction value — otherwise two goroutines can both pass the check (two Mkdir of one name both return nil, which no sequential order produces); (R15.3) in every method of the slice-backed blob the comparisons that justify a slice of the mutex-guarded buffer read its length while the mutex is held, in the critical section that slices — a bounds check made before locking lets a concurrent Truncate through another handle turn the guarded index into a panic; an unlocked pre-check that is repeated under the lock is accepted (no dispatch under the blob lock is R19.4, checked under C19); (R15.4) the in-memory store's transaction constructor holds the store mutex at every successful return — a read-only transaction that skips it sees a rename half done; (R15.5) an operation of the key-value FS that writes more than one record (Rename of a file: new name and old name) issues all its writes on one Transaction value, so no other goroutine's transaction can run between them; (R15.6) every plain map field of a struct that owns a mutex (mem, keyvalue, tar, mount, cache, pathlock) is accessed only with that mutex held, constructors excepted; (R15.7) no method of keyvalue.FS stores into a field of the FS value (no lock protects it and all goroutines share it). The property itself is not claimed.")
+	c.Explain("Linearizability, race freedom in general and deadlock freedom over interleavings are NOT decidable by a sound static argument available here (no pointer analysis, no scheduler model); the race detector and systematic schedule enumeration are other technique families. Two necessary conditions are decided: (R15.1) a guarded-by table (14 lines, each confirmed by reading): the blob's byte slice is touched through a receiver only with the blob mutex held; mirrored/handed-out counters and published flags only through sync/atomic; the serial transaction's result map only under its mutex; the lazily loaded record fields are written only inside the matching sync.Once.Do closure and read only after that Do has returned in the same function (or after the atomic published flag was seen). A shared blob touched without its guard IS a data race. (R15.2) check-then-act in one transaction: each mutating operation of the key-value FS issues the look-ups its decision depends on and the resulting Set on the same Transaction value — otherwise two goroutines can both pass the check (two Mkdir of one name both return nil, which no sequential order produces); (R15.3) in every method of the slice-backed blob the comparisons that justify a slice of the mutex-guarded buffer read its length while the mutex is held, in the critical section that slices — a bounds check made before locking lets a concurrent Truncate through another handle turn the guarded index into a panic; an unlocked pre-check that is repeated under the lock is accepted (no dispatch under the blob lock is R19.4, checked under C19); (R15.4) the in-memory store's transaction constructor holds the store mutex at every successful return — a read-only transaction that skips it sees a rename half done; (R15.5) an operation of the key-value FS that writes more than one record (Rename of a file: new name and old name) issues all its writes on one Transaction value, so no other goroutine's transaction can run between them; (R15.6) every plain map field of a struct that owns a mutex (mem, keyvalue, tar, mount, cache, pathlock) is accessed only with that mutex held, constructors excepted; (R15.7) no method of keyvalue.FS stores into a field of the FS value (no lock protects it and all goroutines share it). The property itself is not claimed. (R15.8/R15.9/R15.10) the analyses of R19.4 (no lock-taking call under a blob mutex), R19.3 (views share the mutex) and R14.3 (a value that came with an error is neither used nor kept) under this property.")
 	c.Assume("lock identity by access path; single receiver per method (no aliasing of two blobs in one method other than fresh results)")
 	c.RuleDoc("R15.1", "guarded-by table")
 	c.RuleDoc("R15.2", "check-then-act within one transaction")
 	c.RuleDoc("R15.4", "every transaction of the in-memory store holds the store mutex")
 	c.RuleDoc("R15.5", "the records of one multi-record update are written on one transaction")
 	c.RuleDoc("R15.6", "plain map fields of mutex-owning structs are accessed only with the mutex held")
+	c.RuleDoc("R15.8", "no call that can take another lock while a blob's mutex is held (= R19.4)")
+	c.RuleDoc("R15.9", "a view shares the mutex of the blob it aliases (= R19.3)")
+	c.RuleDoc("R15.10", "a value that came with an error is neither used nor kept (= R14.3): an entry removed by another goroutine between listing and Stat must not become a nil element")
 	c.RuleDoc("R15.7", "methods of the key-value FS keep no per-call state in the shared FS value")
 	c.RuleDoc("R15.3", "blob bounds are checked inside the critical section that slices the buffer")
 	for _, p := range c.Progs {
@@ -69,8 +72,17 @@ func runC15(c *core.Ctx) {
 			for _, n := range implementers(p, blobI) {
 				if sh := discoverBlobShape(p, n); sh != nil && sh.dataField != "" {
 					r19SameSection(c, p, sh, "R15.3")
+					// R15.8 (= R19.4): nothing that can take another lock is called while the blob's mutex is held (two
+					// copies a->b and b->a would each hold one mutex and wait for the other); R15.9 (= R19.3): a view
+					// shares its parent's mutex, so a read through a view serialises with a write to the blob
+					c.WithAlias(map[string]string{"R19.4": "R15.8", "R19.3": "R15.9"}, func() { r19SliceBacked(c, p, sh) })
 				}
 			}
+		}
+		// R15.10 (= R14.3): a value that came with an error (an entry removed by another goroutine between the listing
+		// and its Stat) is neither used nor kept
+		if p.Target == load.Linux {
+			c.WithAlias(map[string]string{"R14.3": "R15.10"}, func() { r14Drop(c, p); r14Paired(c, p); r14ParallelUse(c, p) })
 		}
 	}
 	c.Floor("R15.1", 14)
@@ -79,6 +91,9 @@ func runC15(c *core.Ctx) {
 	c.Floor("R15.4", 1)
 	c.Floor("R15.5", 1)
 	c.Floor("R15.7", 15)
+	c.Floor("R15.8", 4)
+	c.Floor("R15.9", 2)
+	c.Floor("R15.10", 1)
 }
 
 func r15Guard(c *core.Ctx, p *load.Program, g guardSpec) {
